@@ -174,8 +174,20 @@ func (tr *Transaction) Write(b *Batch, wo *opt.WriteOptions) error {
 	if tr.closed {
 		return errTransactionDone
 	}
+	// Make room for the whole batch first: a flush can fail, and it must not
+	// fail with a part of the batch already applied.
+	if tr.mem.Free() < b.internalLen {
+		if err := tr.flush(); err != nil {
+			return err
+		}
+	}
 	return b.replayInternal(func(i int, kt keyType, k, v []byte) error {
-		return tr.put(kt, k, v)
+		tr.ikScratch = makeInternalKey(tr.ikScratch, k, tr.seq+1, kt)
+		if err := tr.mem.Put(tr.ikScratch, v); err != nil {
+			return err
+		}
+		tr.seq++
+		return nil
 	})
 }
 
